@@ -1470,7 +1470,7 @@ def _add_headers_to_scope(
     http_version: str,
     cookies: Optional[CookieArg],
 ) -> None:
-    found_ua = False
+    supplied = set()
     prepared_headers: List[Iterable[bytes]] = []
 
     if headers:
@@ -1481,7 +1481,7 @@ def _add_headers_to_scope(
 
         for name, value in items:
             n = name.lower().encode('latin1')
-            found_ua = found_ua or (n == b'user-agent')
+            supplied.add(n)
 
             # NOTE(kgriffs): Value is stripped if not empty, otherwise defaults
             #   to b'' to be consistent with _add_headers_to_environ().
@@ -1491,14 +1491,17 @@ def _add_headers_to_scope(
             #   isn't hard-coded to only work with a list or tuple.
             prepared_headers.append(iter([n, v]))
 
-    if not found_ua:
+    # NOTE: As in _add_headers_to_environ(), a header passed in by the caller
+    #   takes precedence over the one that would be generated for it; a real
+    #   server would never send these singleton headers twice.
+    if b'user-agent' not in supplied:
         prepared_headers.append([b'user-agent', DEFAULT_UA.encode()])
 
-    if content_length is not None:
+    if content_length is not None and b'content-length' not in supplied:
         value = str(content_length).encode()
         prepared_headers.append((b'content-length', value))
 
-    if http_version != '1.0':
+    if http_version != '1.0' and b'host' not in supplied:
         host_header = host
 
         if scheme == 'https':
@@ -1510,7 +1513,7 @@ def _add_headers_to_scope(
 
         prepared_headers.append([b'host', host_header.encode()])
 
-    if cookies is not None:
+    if cookies is not None and b'cookie' not in supplied:
         prepared_headers.append([b'cookie', _make_cookie_values(cookies).encode()])
 
     # NOTE(kgriffs): Make it an iterator to ensure the app is not expecting
